@@ -243,6 +243,14 @@ func init() {
 		}
 		return TrueT
 	})
+	z("LogTextIsClean", func(p *Path, fn *ssa.Function, a []Value) Value {
+		for _, v := range p.logArgs {
+			if p.hasSecret(v) {
+				return FalseT
+			}
+		}
+		return TrueT
+	})
 	// SecretFilesAreOwnerOnly: every modelled file (os or bbolt) that received secret-dependent content was
 	// owner-only at the time of the write.
 	z("SecretFilesAreOwnerOnly", func(p *Path, fn *ssa.Function, a []Value) Value {
